@@ -328,6 +328,7 @@ func StructFieldsAsArgumentsAction(explicitFields ...string) RewriteAction {
 
 		newAssignments := make([]ast.Assignment, 0, len(structType.Fields))
 		valuesForEnvelope := make([]ast.EnvelopeFieldValue, 0, len(structType.Fields))
+		var constraintsForEnvelope []ast.AssignmentConstraint
 		defaults := make(map[string]any)
 		if option.Default != nil && len(option.Default.ArgsValues) == 1 {
 			if defs, ok := option.Default.ArgsValues[0].(map[string]any); ok {
@@ -385,6 +386,15 @@ func StructFieldsAsArgumentsAction(explicitFields ...string) RewriteAction {
 					assignmentValue = ast.AssignmentValue{Constant: field.Type.AsScalar().Value}
 				} else {
 					assignmentValue = ast.AssignmentValue{Argument: &newArg}
+
+					// the constraints of the field are checked on the argument it becomes
+					for _, constraint := range constraints {
+						constraintsForEnvelope = append(constraintsForEnvelope, ast.AssignmentConstraint{
+							Argument:  newArg,
+							Op:        constraint.Op,
+							Parameter: constraint.Args[0],
+						})
+					}
 				}
 				valuesForEnvelope = append(valuesForEnvelope, ast.EnvelopeFieldValue{
 					Path:  ast.PathFromStructField(field),
@@ -414,6 +424,7 @@ func StructFieldsAsArgumentsAction(explicitFields ...string) RewriteAction {
 							Values: valuesForEnvelope,
 						},
 					},
+					Constraints: constraintsForEnvelope,
 				},
 			}
 		}
